@@ -5,7 +5,6 @@ import (
 	"fmt"
 	"sort"
 	"strings"
-	"time"
 
 	bs "github.com/danthegoodman1/bloomsearch"
 
@@ -166,7 +165,7 @@ func runMergeCase(rc *RunCtx, i int, content bool) {
 	runAll := func() []*world.QueryResult {
 		out := make([]*world.QueryResult, len(queries))
 		for k, q := range queries {
-			ctx, cancel := context.WithTimeout(context.Background(), 60*time.Second)
+			ctx, cancel := context.WithTimeout(context.Background(), core.Patience)
 			out[k] = world.RunQuery(ctx, me, q)
 			cancel()
 		}
@@ -184,7 +183,7 @@ func runMergeCase(rc *RunCtx, i int, content bool) {
 	}
 	for round := 0; round < 6; round++ {
 		nUpd := len(w.IMeta.UpdateRecs())
-		ctx, cancel := context.WithTimeout(context.Background(), 120*time.Second)
+		ctx, cancel := context.WithTimeout(context.Background(), core.Patience)
 		_, merr := me.Merge(ctx)
 		cancel()
 		rc.Res.Eval(1)
